@@ -1226,4 +1226,245 @@ theorem cbdOf_eq_coreBlockDepth (c : Cfg) (core : Nat) (hn : 0 < c.ncores) (hc :
   · congr 1; omega
   · rw [Nat.div_eq_of_lt (by omega), Nat.div_eq_of_lt (by omega)]
 
+/-! ### address derivation -/
+
+theorem findRange_mem (rs : List Range) (core depth : Nat) (r : Range) (h : findRange rs core depth = some r) :
+    r ∈ rs ∧ r.core = core ∧ r.depth = depth := by
+  unfold findRange at h
+  refine ⟨List.mem_of_find?_eq_some h, ?_⟩
+  have := List.find?_some h
+  simpa using this
+
+/-- numeric facts about a recorded range that the address derivation relies on -/
+structure RangeNum (L : Nat) (r : Range) : Prop where
+  offAligned : r.offset % 16 = 0
+  wbAligned : r.weightBytes % 16 = 0
+  inside : r.stop ≤ L
+  wo : r.weightOffset = roundUp16 r.scaleBytes ∨ (r.weightOffset = 0 ∧ r.weightBytes = 0)
+
+theorem RangeGood.num {c : Cfg} {S : List Nat} {r : Range} (h : RangeGood c S r) : RangeNum S.length r := by
+  refine ⟨h.offAligned, h.wbAligned, h.inside, ?_⟩
+  have := h.wo
+  by_cases hw : c.doWeights = true
+  · left; rw [this, hw]; rfl
+  · right
+    have hw' : c.doWeights = false := by simpa using hw
+    exact ⟨by rw [this, hw']; rfl, h.wb0 hw'⟩
+
+/-- Unbuffered (`weight_tensor == w_tensor_src`, scales in the same tensor): every address range
+    `create_weights` returns is 16-byte aligned (for an aligned tensor address), lies inside the tensor
+    and is exactly the recorded weight / scale section of a range with the requested key. -/
+theorem createWeightsLoop_direct (rs : List Range) (L srcAddr depth : Nat) (hnum : ∀ r ∈ rs, RangeNum L r)
+    (hsrc : srcAddr % 16 = 0) (hL : L % 16 = 0) : ∀ (cores : List Nat) (off0 : Nat) (ws bs : List AddrRange),
+    createWeightsLoop rs srcAddr none none depth cores off0 = some (ws, bs) →
+    (∀ a ∈ ws, a.address % 16 = 0 ∧ srcAddr ≤ a.address ∧ a.address + a.length ≤ srcAddr + L ∧
+        ∃ r ∈ rs, r.depth = depth ∧ a = ⟨srcAddr + r.offset + r.weightOffset, r.weightBytes⟩) ∧
+    (∀ a ∈ bs, a.address % 16 = 0 ∧ srcAddr ≤ a.address ∧ a.address + a.length ≤ srcAddr + L ∧
+        ∃ r ∈ rs, r.depth = depth ∧ a = ⟨srcAddr + r.offset, roundUp16 r.scaleBytes⟩) := by
+  intro cores
+  induction cores with
+  | nil =>
+    intro off0 ws bs h
+    simp only [createWeightsLoop] at h
+    injection h with h; injection h with h1 h2; subst h1; subst h2
+    simp
+  | cons k ks ih =>
+    intro off0 ws bs h
+    simp only [createWeightsLoop] at h
+    cases hf : findRange rs k depth with
+    | none => rw [hf] at h; exact ih off0 ws bs h
+    | some r =>
+      rw [hf] at h
+      simp only at h
+      cases hrest : createWeightsLoop rs srcAddr none none depth ks off0 with
+      | none => rw [hrest] at h; simp at h
+      | some p =>
+        obtain ⟨ws', bs'⟩ := p
+        rw [hrest] at h
+        simp only at h
+        injection h with h; injection h with h1 h2; subst h1; subst h2
+        obtain ⟨hr, _, hd⟩ := findRange_mem rs k depth r hf
+        have hn := hnum r hr
+        obtain ⟨ihw, ihb⟩ := ih off0 ws' bs' hrest
+        have hstop := hn.inside
+        unfold Range.stop at hstop
+        have hro := roundUp16_of_mod _ hn.wbAligned
+        have hsb := roundUp16_mod r.scaleBytes
+        have hsb' := roundUp16_ge r.scaleBytes
+        refine ⟨?_, ?_⟩
+        · intro a ha
+          simp only [List.mem_cons] at ha
+          rcases ha with rfl | ha
+          · refine ⟨?_, ?_, ?_, r, hr, hd, ?_⟩
+            · have := hn.offAligned
+              rcases hn.wo with h1 | ⟨h1, _⟩ <;> (simp only [h1]; omega)
+            · simp only; omega
+            · simp only [hro]; omega
+            · simp only [hro]
+          · exact ihw a ha
+        · intro a ha
+          simp only [List.mem_cons] at ha
+          rcases ha with rfl | ha
+          · refine ⟨?_, ?_, ?_, r, hr, hd, rfl⟩
+            · have := hn.offAligned; simp only; omega
+            · simp only; omega
+            · simp only
+              rcases hn.wo with h1 | ⟨h1, h2⟩
+              · omega
+              · -- scale-only tensor: the rounded scale section extends into the padding, which is inside the stream
+                have := hn.offAligned
+                unfold roundUp16 at *
+                omega
+          · exact ihb a ha
+
+
+/-- bytes `create_dma_op` moves for a slice: the 16-byte rounded size of every core's range -/
+def foundSum (rs : List Range) (depth : Nat) (cores : List Nat) : Nat :=
+  ((cores.filterMap (fun k => findRange rs k depth)).map (fun r => roundUp16 r.totalBytes)).sum
+
+theorem foldl_add_sum (l : List Range) (a : Nat) :
+    l.foldl (fun acc r => acc + roundUp16 r.totalBytes) a = a + (l.map (fun r => roundUp16 r.totalBytes)).sum := by
+  induction l generalizing a with
+  | nil => simp
+  | cons x xs ih => simp only [List.foldl_cons, List.map_cons, List.sum_cons, ih]; omega
+
+theorem createDmaOp_spec (n : Nat) (rs : List Range) (src dst depth : Nat) (s d : AddrRange)
+    (h : createDmaOp n rs src dst depth = some (s, d)) :
+    s.length = foundSum rs depth (List.range n) ∧ d = ⟨dst, s.length⟩ ∧
+    ∃ r0 ∈ rs, r0.core = 0 ∧ r0.depth = depth ∧ s.address = src + r0.offset := by
+  unfold createDmaOp at h
+  simp only at h
+  cases hf : findRange rs 0 depth with
+  | none => rw [hf] at h; simp at h
+  | some r0 =>
+    rw [hf] at h
+    simp only [Option.some.injEq, Prod.mk.injEq] at h
+    obtain ⟨rfl, rfl⟩ := h
+    obtain ⟨hm, hc, hd⟩ := findRange_mem rs 0 depth r0 hf
+    refine ⟨?_, rfl, r0, hm, hc, hd, rfl⟩
+    simp only [foundSum, foldl_add_sum, Nat.zero_add]
+
+/-- Buffered (`weight_tensor` is a copy filled by the DMA of `create_dma_op`): every address range
+    `create_weights` returns lies inside the bytes the DMA of the same slice writes, 16-byte aligned. -/
+theorem createWeightsLoop_buffered (rs : List Range) (L srcAddr depth buf : Nat) (hnum : ∀ r ∈ rs, RangeNum L r)
+    (hbuf : buf % 16 = 0) : ∀ (cores : List Nat) (off0 : Nat) (ws bs : List AddrRange), off0 % 16 = 0 →
+    createWeightsLoop rs srcAddr (some buf) none depth cores off0 = some (ws, bs) →
+    ∀ a ∈ ws ++ bs, a.address % 16 = 0 ∧ buf + off0 ≤ a.address ∧
+      a.address + a.length ≤ buf + off0 + foundSum rs depth cores := by
+  intro cores
+  induction cores with
+  | nil =>
+    intro off0 ws bs _ h
+    simp only [createWeightsLoop] at h
+    injection h with h; injection h with h1 h2; subst h1; subst h2
+    simp
+  | cons k ks ih =>
+    intro off0 ws bs ho h
+    simp only [createWeightsLoop] at h
+    cases hf : findRange rs k depth with
+    | none =>
+      rw [hf] at h
+      have : foundSum rs depth (k :: ks) = foundSum rs depth ks := by simp [foundSum, hf]
+      rw [this]; exact ih off0 ws bs ho h
+    | some r =>
+      rw [hf] at h
+      simp only at h
+      cases hrest : createWeightsLoop rs srcAddr (some buf) none depth ks (off0 + roundUp16 r.totalBytes) with
+      | none => rw [hrest] at h; simp at h
+      | some p =>
+        obtain ⟨ws', bs'⟩ := p
+        rw [hrest] at h
+        simp only at h
+        injection h with h; injection h with h1 h2; subst h1; subst h2
+        obtain ⟨hr, _, _⟩ := findRange_mem rs k depth r hf
+        have hn := hnum r hr
+        have hsum : foundSum rs depth (k :: ks) = roundUp16 r.totalBytes + foundSum rs depth ks := by
+          simp [foundSum, hf]
+        have hrt := roundUp16_mod r.totalBytes
+        have ih' := ih (off0 + roundUp16 r.totalBytes) ws' bs' (by omega) hrest
+        have hro := roundUp16_of_mod _ hn.wbAligned
+        have hsb := roundUp16_mod r.scaleBytes
+        have htot : roundUp16 r.scaleBytes + r.weightBytes = roundUp16 r.totalBytes := by
+          unfold Range.totalBytes; rw [roundUp16_add _ _ hn.wbAligned]
+        have hle : roundUp16 r.scaleBytes ≤ roundUp16 r.totalBytes := by omega
+        intro a ha
+        simp only [List.cons_append, List.mem_cons, List.mem_append] at ha
+        rw [hsum]
+        rcases ha with rfl | ha | rfl | ha
+        · simp only [hro]
+          rcases hn.wo with h1 | ⟨h1, h2⟩
+          · rw [h1]; omega
+          · rw [h1, h2]; omega
+        · have := ih' a (by simp [ha]); omega
+        · simp only; omega
+        · have := ih' a (by simp [ha]); omega
+
+
+/-! ### the memo table -/
+
+/-- every entry of the table is the fresh answer of some admissible request with that key -/
+def CacheInv {ρ κ β : Type} (key : ρ → κ) (fresh : ρ → β) (S : ρ → Prop) (cache : List (κ × β)) : Prop :=
+  ∀ e ∈ cache, ∃ r, S r ∧ key r = e.1 ∧ fresh r = e.2
+
+theorem cacheGet_some {κ β : Type} [DecidableEq κ] (cache : List (κ × β)) (k : κ) (v : β)
+    (h : cacheGet cache k = some v) : (k, v) ∈ cache := by
+  unfold cacheGet at h
+  cases hf : cache.find? (fun e => e.1 = k) with
+  | none => rw [hf] at h; simp at h
+  | some e =>
+    rw [hf] at h
+    simp only [Option.map_some, Option.some.injEq] at h
+    have h1 := List.mem_of_find?_eq_some hf
+    have h2 := List.find?_some hf
+    simp only [decide_eq_true_eq] at h2
+    subst h; rw [← h2]; exact h1
+
+theorem cachedRun_sound {ρ κ β : Type} [DecidableEq κ] (key : ρ → κ) (fresh : ρ → β) (S : ρ → Prop)
+    (hfun : ∀ a b, S a → S b → key a = key b → fresh a = fresh b) :
+    ∀ (reqs : List ρ) (cache : List (κ × β)), CacheInv key fresh S cache → (∀ r ∈ reqs, S r) →
+      ∀ p ∈ cachedRun key fresh cache reqs, p.2 = fresh p.1 := by
+  intro reqs
+  induction reqs with
+  | nil => intro cache _ _ p hp; simp [cachedRun] at hp
+  | cons r rs ih =>
+    intro cache hinv hS p hp
+    simp only [cachedRun, cachedStep] at hp
+    cases hg : cacheGet cache (key r) with
+    | some v =>
+      rw [hg] at hp
+      simp only [List.mem_cons] at hp
+      rcases hp with rfl | hp
+      · obtain ⟨r0, hs0, hk0, hf0⟩ := hinv _ (cacheGet_some cache (key r) v hg)
+        simp only at hk0 hf0 ⊢
+        rw [← hf0]; exact hfun r0 r hs0 (hS r (by simp)) hk0
+      · exact ih cache hinv (fun x hx => hS x (by simp [hx])) p hp
+    | none =>
+      rw [hg] at hp
+      simp only [List.mem_cons] at hp
+      rcases hp with rfl | hp
+      · rfl
+      · refine ih _ ?_ (fun x hx => hS x (by simp [hx])) p hp
+        intro e he
+        simp only [List.mem_cons] at he
+        rcases he with rfl | he
+        · exact ⟨r, hS r (by simp), rfl, rfl⟩
+        · exact hinv e he
+
+theorem cachedRun_two {ρ κ β : Type} [DecidableEq κ] (key : ρ → κ) (fresh : ρ → β) (a b : ρ) (h : key a = key b) :
+    cachedRun key fresh [] [a, b] = [(a, fresh a), (b, fresh a)] := by
+  simp [cachedRun, cachedStep, cacheGet, h]
+
+
+/-- a small one-core configuration with three channels split `[0, 1, 3]`: slice 1 is larger than slice 0 -/
+def unevenCfg : Cfg :=
+  { ncores := 1, fullDepth := 3, blockDepth := 8, doWeights := true, scales := List.replicate 3 (1073741824, 30),
+    biases := [1, -2, 3], enc := fun chs _ => List.replicate (16 * chs.length) 7 }
+
+/-- two requests that differ only in the IFM bit depth -/
+def reqInt8 : Req :=
+  { blockType := 1, blockDepthClamped := 16, depthHash := 77, dilation := (1, 1), weightValueId := 5, scaleValueId := 6,
+    ifmScale := 1, ofmScale := 2, accelerator := 2, ifmBits := 8, opFlip := false, depthOffsets := [0, 16], blockDepth := 16,
+    weightData := 9, scaleData := 10 }
+def reqInt16 : Req := { reqInt8 with ifmBits := 16, scaleValueId := 7, scaleData := 11 }
+
 end VelaVerif.WeightLayout
